@@ -274,7 +274,7 @@ class Lang:
         if init and init[0][0] == "id" and init[0][1] in self.units:
             return self.unit_call(X, env, init, name, rest, ctx)
         e = X.ex(init, env)
-        want = {"char": "P" if is_ptr else "C", "bool": "B", "auto": None}.get(tname, "?")
+        want = {"char": "P" if is_ptr else "C", "bool": "B", "auto": None, "std::streamsize": "N", "size_t": "N", "std::size_t": "N"}.get(tname, "?")
         if want == "?":
             raise OutOfGrammar("%s: declaration type %r" % (X.what, tname))
         if want is None:
@@ -563,10 +563,10 @@ def unit_print(repo):
     k = sx.balanced(src, src.index("(", m.start()), "float_to_str_vw")
     ptext = flat(src[m.end():k])
     head = flat(src[max(0, m.start() - 200):m.start()])
-    pm = re.fullmatch(r"(\w+) value ?, ?int precision ?= ?std::numeric_limits<(\w+(?: \w+)?)>::max_digits10", ptext)
+    pm = re.fullmatch(r"(\w+|std::floating_point auto) value ?, ?int precision ?= ?std::numeric_limits<(\w+(?: \w+)?)>::max_digits10", ptext)
     if not pm:
         raise OutOfGrammar("g_print_elem: parameters %r" % ptext)
-    vty, pty = pm.group(1), pm.group(2)
+    vty, pty = pm.group(1), pm.group(2)          # `std::floating_point auto`: the value's type has no name the default argument could use
     tm = re.search(r"template ?< ?std::floating_point (\w+) ?>\s*std::string_view$", head)
     follows = bool(tm) and tm.group(1) == vty and pty == vty
     b = src.find("{", k)
